@@ -721,7 +721,9 @@ class C08(Prop):
           'outside the unsealed part in every order; 300 histories of 2-4 calls on one accessor-protected receiver '
           '(non-accessor mutators, then accessor writes), flags of all nodes compared after every call; 250 trees '
           'whose lists / dict values / object fields hold inferential elements (a ValueFromParentChain subclass '
-          'that evaluates to a value outside the sealed subtree), sealed / unsealed at any node; '
+          'that evaluates to a value outside the sealed subtree), sealed / unsealed at any node; 300 forests (the tree '
+          'plus an external value that pg.Ref elements of the tree refer to; steps on either tree); the plumbing '
+          'entry points sym_setparent / sym_setpath are part of the entry-point grid; '
           'plus an exhaustive grid: every entry point x {node, child, '
           'grandchild} x own flag x 9 scope stacks x accessor flag, and every mutating method found by '
           'introspection of the classes\' MRO. Non-trivial: the step addresses a node that is protected '
@@ -738,6 +740,11 @@ class C08(Prop):
       '(the receiver is not protected; the property text demands the sealed value to be unchanged): modelled as '
       'the code does it, the oracle demands WritePermissionError and the sealed value unchanged',
       'unbound builtin calls such as list.append(l, x) are not public API of the symbolic types',
+      'sym_setparent / sym_setpath (TopologyAware plumbing, used by every insertion) are not write-protected by the '
+      'code: they change the parent link / path of a node, never contents or flags; modelled as calls that end '
+      'normally and leave the tree as it is, the oracle checks contents and flags (tree integrity is C01)',
+      'a forest is a list of trees without shared nodes; pg.Ref elements are field-less symbolic nodes, the value '
+      'they refer to is another tree of the forest (references into the same tree are rejected by pyglove)',
   ]
   assumptions = ['sym_init_args is the attribute container _sym_attributes of a pg.Object (its sealed flag is observed and set through it)']
 
